@@ -43,27 +43,28 @@ func (z *zipkinDecoderV2) Decode() error {
 	z.val = make([]string, 10)
 	dec := jx.Decode(z.ctx.bodyReader, 64*1024)
 	return dec.Arr(func(d *jx.Decoder) error {
-		z.traceId = nil
-		z.spanId = nil
-		z.timestampNs = 0
-		z.durationNs = 0
-		z.parentId = ""
-		z.name = ""
-		z.serviceName = ""
-		z.payload = nil
-		z.key = z.key[:0]
-		z.val = z.val[:0]
 		rawSpan, err := dec.Raw()
 		if err != nil {
 			return custom_errors.NewUnmarshalError(err)
 		}
-		z.payload = append([]byte{}, rawSpan...)
 		return z.decodeSpan(rawSpan)
 	})
 
 }
 
+// decodeSpan decodes one span. The per-span state is reset here so that both framings
+// (JSON array and newline-delimited) start every span from scratch and store its raw text.
 func (z *zipkinDecoderV2) decodeSpan(rawSpan jx.Raw) error {
+	z.traceId = nil
+	z.spanId = nil
+	z.timestampNs = 0
+	z.durationNs = 0
+	z.parentId = ""
+	z.name = ""
+	z.serviceName = ""
+	z.key = z.key[:0]
+	z.val = z.val[:0]
+	z.payload = append([]byte{}, rawSpan...)
 	dec := jx.DecodeBytes(rawSpan)
 	if rawSpan.Type() != jx.Object {
 		return custom_errors.New400Error(fmt.Sprintf("span %s is not an object", rawSpan.String()))
@@ -226,6 +227,9 @@ func (z *zipkinNDDecoderV2) Decode() error {
 		if err != nil {
 			return custom_errors.NewUnmarshalError(err)
 		}
+	}
+	if err := scanner.Err(); err != nil {
+		return custom_errors.NewUnmarshalError(err)
 	}
 	return nil
 }
